@@ -5,13 +5,13 @@
    underflow by construction), as the entry method of a fixed small program.  Most of these
    programs are ill-formed: the real VM must fail cleanly exactly where the abstract machine
    FMLVM fails, having done exactly what it did before (fail-stop), and otherwise agree on every
-   instruction.  MaxLen = 2: 1 332 programs; 3: 47 988 (env SEQLEN, STRIDE samples length 3). *)
+   instruction.  MaxLen = 2: 1 482 programs; 3: 56 354 (env SEQLEN, STRIDE samples length 3). *)
 EXTENDS FMLBytecode, TLC, Json, IOUtils
 VARIABLES code
 Ins(o, a, n) == [op |-> o, a |-> a, n |-> n]
 MaxLen == IF "SEQLEN" \in DOMAIN IOEnv THEN (IF IOEnv.SEQLEN = "3" THEN 3 ELSE 2) ELSE 2
 Stride == IF "STRIDE" \in DOMAIN IOEnv THEN CHOOSE k \in 1..64 : ToString(k) = IOEnv.STRIDE ELSE 1
-\* constants: 0 "λ:"  1 5  2 null  3 true  4 "x"  5 "~\n"  6 slot x  7 class{x}  8 method f/1  9 "f"  10 "L"  11 class{x, f}  12 "+"  13 entry
+\* constants: 0 "λ:"  1 5  2 null  3 true  4 "x"  5 "~\n"  6 slot x  7 class{x}  8 method f/1  9 "f"  10 "L"  11 class{x, f}  12 "+"  13 entry  14 false  15 0
 Alphabet == << Ins(OP_LIT, 1, 0), Ins(OP_LIT, 2, 0), Ins(OP_LIT, 3, 0), Ins(OP_LIT, 4, 0), Ins(OP_LIT, 99, 0),
                Ins(OP_PRINT, 5, 0), Ins(OP_PRINT, 5, 1), Ins(OP_PRINT, 1, 0),
                Ins(OP_ARRAY, 0, 0), Ins(OP_OBJECT, 7, 0), Ins(OP_OBJECT, 11, 0), Ins(OP_OBJECT, 1, 0),
@@ -21,13 +21,14 @@ Alphabet == << Ins(OP_LIT, 1, 0), Ins(OP_LIT, 2, 0), Ins(OP_LIT, 3, 0), Ins(OP_L
                Ins(OP_SETLOC, 0, 0), Ins(OP_GETLOC, 0, 0), Ins(OP_GETLOC, 5, 0),
                Ins(OP_SETGLB, 4, 0), Ins(OP_GETGLB, 4, 0), Ins(OP_GETGLB, 9, 0),
                Ins(OP_LABEL, 10, 0), Ins(OP_JUMP, 10, 0), Ins(OP_BRANCH, 10, 0), Ins(OP_JUMP, 4, 0),
-               Ins(OP_RETURN, 0, 0), Ins(OP_DROP, 0, 0), Ins(OP_GETLOC, 1, 0), Ins(OP_SETGLB, 9, 0) >>
+               Ins(OP_RETURN, 0, 0), Ins(OP_DROP, 0, 0), Ins(OP_GETLOC, 1, 0), Ins(OP_SETGLB, 9, 0),
+               Ins(OP_LIT, 14, 0), Ins(OP_LIT, 15, 0) >>            \* false and 0: with null the values a branch must tell apart from the truthy ones
 N == Len(Alphabet)
 Prog(c) == [consts |-> << [k |-> "str", bytes |-> <<206,187,58>>], [k |-> "int", i |-> 5], [k |-> "null"], [k |-> "bool", b |-> TRUE],
                           [k |-> "str", bytes |-> <<120>>], [k |-> "str", bytes |-> <<126, 92, 110>>], [k |-> "slot", name |-> 4], [k |-> "class", members |-> <<6>>],
                           [k |-> "method", name |-> 9, arity |-> 1, locals |-> 0, code |-> <<Ins(OP_GETLOC, 0, 0), Ins(OP_RETURN, 0, 0)>>],
                           [k |-> "str", bytes |-> <<102>>], [k |-> "str", bytes |-> <<76>>], [k |-> "class", members |-> <<6, 8>>], [k |-> "str", bytes |-> <<43>>],
-                          [k |-> "method", name |-> 0, arity |-> 0, locals |-> 1, code |-> c] >>,
+                          [k |-> "method", name |-> 0, arity |-> 0, locals |-> 1, code |-> c], [k |-> "bool", b |-> FALSE], [k |-> "int", i |-> 0] >>,
             globals |-> <<6, 8>>, entry |-> 13]
 Init == \E n \in 1..MaxLen : code \in [1..n -> 1..N]
 Next == FALSE /\ UNCHANGED code
